@@ -83,7 +83,7 @@ def self_field(e, field=None):
     is_self = False
     if b[0] == "param" and b[2] == "self":
         is_self = True
-    if b[0] == "field" and b[2] == "self" and strip(b[1])[0] == "env":
+    if b[0] == "field" and b[2] in ("self", "_ref__self") and strip(b[1])[0] == "env":
         is_self = True
     if not is_self:
         return None
@@ -361,4 +361,50 @@ def closure_effects(ctx, body, names):
                 if r[0] == "field" and _f.strip(r[1])[0] in ("env", "param"):
                     recv = caps.get(r[2])
                 out.append((bb, t, ai, cb, ibb, it, recv))
+    return out
+
+
+def tracing_region_blocks(body):
+    """blocks that only run when a tracing/log macro's `enabled` test passed: between a diagnostic switch and its immediate
+    post-dominator. Expressions the user wrote as arguments of the macro (`trace!(n = a - b)`) live there."""
+    cached = getattr(body, "_tracing_region", None)
+    if cached is not None:
+        return cached
+    from . import boolform
+    ipd = getattr(body, "_ipdom", None)
+    if ipd is None:
+        ipd = body._ipdom = boolform._ipdom(body)
+    idom, EXIT = ipd
+    region = set()
+    for blk in body.blocks:
+        if blk.cleanup or blk.term.kind != "switch" or not body.is_noise(blk.term):
+            continue
+        stop = idom.get(blk.idx)
+        if stop is None:
+            continue
+        work = [s for s in body.succ[blk.idx]]
+        seen = set()
+        while work:
+            x = work.pop()
+            if x == stop or x in seen or x == EXIT:
+                continue
+            seen.add(x)
+            work.extend(body.succ[x])
+        region |= seen
+    body._tracing_region = region
+    return region
+
+
+def closure_arg_calls(ctx, body, outer_names):
+    """[(bb, term, argi, closure_body)] for calls in `body` to one of `outer_names` that receive a closure literal"""
+    from . import flow as _f
+    an = ctx.an(body)
+    out = []
+    for bb, t in calls(body, outer_names):
+        for ai in range(len(t.args)):
+            e = _f.strip(arg(an, bb, t, ai))
+            if e[0] == "agg" and e[1].startswith("closure:"):
+                cb = ctx.prog.bodies.get(e[1].split(":", 1)[1])
+                if cb is not None:
+                    out.append((bb, t, ai, cb))
     return out
